@@ -1,6 +1,7 @@
 """Type catalogue (hand-written + randomly generated derive inputs), generated.rs for the harness,
 and payload / script generators."""
 import copy
+import os
 import random
 from . import common as C
 from . import tys as T
@@ -376,7 +377,9 @@ def generated_rs(entries):
 
 def build(ctx, mod):
     tier = getattr(ctx, "tier", "quick")
-    type_seed = 0 if tier == "quick" else ctx.seed
+    type_seed = ctx.seed       # the random derive inputs follow the seed (one harness build per seed, shared by all checks)
+    if os.environ.get("VERIF_TYPE_SEED"):
+        type_seed = int(os.environ["VERIF_TYPE_SEED"])     # development aid: other random derive inputs in the quick tier
     n_random = 40 if tier == "quick" else 160
     entries = make_entries(type_seed, n_random)
     binary, secs = C.build_harness(generated_rs(entries))
@@ -466,6 +469,9 @@ def gen_int(name, rng, valid=True):
 
 def gen_str(rng, ok=True):
     pool = ["", "a", "bork", "jorts", "x,y", "12", "hello world", "é", "ab", "!bad", "doggo", "catto", "1,2,3", ",", "true"]
+    if rng.random() < 0.12:
+        # characters that JSON text must escape (or must NOT escape): quoted back inside error messages
+        return rng.choice(["\b", "a\fb", "\u0000", "\u001b[0m", "del\u007f", "soft\u00adhyphen", "zero\u200bwidth", "q\"uote", "back\\slash", "tab\tnl\n", "ab\u00e9", "x\U0001f980y"])
     return rng.choice(pool)
 
 
@@ -649,7 +655,7 @@ def gen_item_valid(it, rng, depth):
     return None
 
 
-WRONG = [None, True, {"i": "1"}, {"i": "1000"}, {"n": "-3"}, {"f": "3ff8000000000000"}, "str", [], [{"i": "1"}], {"m": []}, {"m": [["a", None]]},
+WRONG = [None, True, "ctl\u0008\u000c\u001b\u007f\u00ad\u200b", {"i": "1"}, {"i": "1000"}, {"n": "-3"}, {"f": "3ff8000000000000"}, "str", [], [{"i": "1"}], {"m": []}, {"m": [["a", None]]},
          {"i": "18446744073709551615"}, {"n": "-9223372036854775808"}, "!bad", {"i": "3"}, [{"i": "1"}, {"i": "2"}, {"i": "3"}],
          {"f": "7ff8000000000000"}, [{"f": "7ff0000000000000"}, {"i": "1"}, {"f": "fff0000000000000"}], {"m": [["a", {"f": "7ff8000000000000"}], ["b", [{"f": "7ff0000000000000"}]]]}]
 
@@ -715,7 +721,7 @@ def mutate_once(p, rng, extra_keys=()):
     if op == "range":
         return set_at(p, path, wi(rng.choice([255, 256, 65536, 2**31, 2**32, 2**63, 2**64 - 1, -1, -129, -32769, -2**31 - 1, -2**63, 0, 127, 128, 1000, 3, 7])))
     if op == "str":
-        return set_at(p, path, rng.choice(["", "ab", "!x", "é", "a,b,,c", "1,x", "256", "Alpha", "alpha", near_miss(cur, rng)]))
+        return set_at(p, path, rng.choice(["", "ab", "!x", "é", "a,b,,c", ",1", "1,,2", ",", "1,x", "256", "Alpha", "alpha", "abé", "ab\U0001f980", "\u0008\u000c\u007f", near_miss(cur, rng)]))
     new = copy.deepcopy(cur)
     if op == "drop_elem" and new:
         del new[rng.randrange(len(new))]
